@@ -1,8 +1,9 @@
 /- C33 line-protocol driver: `lake env lean --run PorepyVerif/C33/Driver.lean`
 
-   {"op":"match1d","c1":[["s","e"],…],"c2":[["s","e"],…],"tol":"t"}
+   {"op":"match1d","c1":[["s","e"],…],"c2":[["s","e"],…],"tol":"t","ptol":"p"}
      -> {"triples":[[i,j,"w"],…],"avg":[[…]],"int":[[…]],"none":[[…]]}
-   cells are pairs of line parameters (arc length along the common line) of the two nodes of a cell. -/
+   cells are pairs of line parameters (arc length along the common line) of the two nodes of a cell;
+   tol = tolerance of match_1d's unscaled branch, ptol = tolerance of segments_3d in arc-length units. -/
 import PorepyVerif.Common.Wire
 import PorepyVerif.C33.Model
 open Lean PV PorepyVerif.C33
@@ -21,11 +22,12 @@ def run (j : Json) : R Json := do
     let c1 ← fRatss j "c1" >>= toCells
     let c2 ← fRatss j "c2" >>= toCells
     let tol ← fRat j "tol"
-    let T := lineTess c1 c2
+    let ptol ← fRat j "ptol"
+    let T := lineTess ptol c1 c2
     pure (obj [("triples", ofList (fun (t : Triple) => Json.arr #[ofNat t.1, ofNat t.2.1, ofRat t.2.2]) T),
-               ("avg", ofMat (match1d .averaged c1 c2)),
-               ("int", ofMat (match1d .integrated c1 c2)),
-               ("none", ofMat (match1d (.unscaled tol) c1 c2))])
+               ("avg", ofMat (match1d ptol .averaged c1 c2)),
+               ("int", ofMat (match1d ptol .integrated c1 c2)),
+               ("none", ofMat (match1d ptol (.unscaled tol) c1 c2))])
   | _ => throw s!"unknown op {op}"
 
 def main : IO Unit := runPure run
